@@ -350,6 +350,9 @@ def _chunk(task):
         ms = list(corner_models())
     elif kind == "shipped":
         ms = list(shipped_models())
+    elif kind == "forcedinf":
+        rng = random.Random(seed * 1000003 + 500009 + idx)
+        ms = [U.forced_inf_model(rng) for _ in range(n)]
     else:
         rng = random.Random(seed * 1000003 + idx)
         ms = []
@@ -360,8 +363,10 @@ def _chunk(task):
     for j, m in enumerate(ms):
         desc = U.describe(m)
         sig = hash(U.signature(m))
+        # the forced-infinite family sets its bounds through the constructor / .bounds / .lower_bound+.upper_bound in turn
+        how = U.HOWS[(idx + j) % 3] if kind == "forcedinf" else None
         for solver in solvers:
-            mm = U.rebuild(desc) if kind != "shipped" else m.copy()
+            mm = m.copy() if kind == "shipped" else (U.build_via(desc, how) if how else U.rebuild(desc))
             try:
                 fails, info = check_model(mm, solver)
             except Exception as e:  # noqa
@@ -377,15 +382,15 @@ def _chunk(task):
             payload_desc = desc if kind != "shipped" else {"shipped": m.id}
             for key, text in fails:
                 w = f"seed{seed}:{kind}#{idx}.{j}:{solver}:{key}"
-                res["fails"].append((key, text, {"model": payload_desc, "solver": solver, "key": key, "witness": w}, U.size_of(desc), w))
+                res["fails"].append((key, text, {"model": payload_desc, "solver": solver, "key": key, "witness": w, "how": how}, U.size_of(desc), w))
             if len(res["samples"]) < 1 and nontrivial and kind == "random":
                 res["samples"].append({"model": desc, "solver": solver, "exact": info["exact"], "value": info.get("value")})
     return res
 
 
 TIERS = {
-    "quick": {"chunks": 128, "per_chunk": 72, "sizes": [(3, 3), (3, 5), (4, 5)], "shipped": False},
-    "thorough": {"chunks": 256, "per_chunk": 120, "sizes": [(3, 3), (3, 5), (4, 5), (5, 7), (6, 8)], "shipped": True},
+    "quick": {"forcedinf_chunks": 32, "forcedinf_per_chunk": 30, "chunks": 128, "per_chunk": 72, "sizes": [(3, 3), (3, 5), (4, 5)], "shipped": False},
+    "thorough": {"forcedinf_chunks": 128, "forcedinf_per_chunk": 60, "chunks": 256, "per_chunk": 120, "sizes": [(3, 3), (3, 5), (4, 5), (5, 7), (6, 8)], "shipped": True},
 }
 
 
@@ -397,6 +402,7 @@ def run(tier, seed):
     tasks = [("corner", seed, 0, 0, None, solvers)]
     if cfg["shipped"]:
         tasks.append(("shipped", seed, 0, 0, None, solvers))
+    tasks += [("forcedinf", seed, i, cfg["forcedinf_per_chunk"], None, solvers) for i in range(cfg["forcedinf_chunks"])]
     tasks += [("random", seed, i, cfg["per_chunk"], cfg["sizes"], solvers) for i in range(cfg["chunks"])]
     results = U.run_pool(_chunk, tasks)
     F = U.Failures(per_key=2)
@@ -414,11 +420,15 @@ def run(tier, seed):
         "evaluations": evals,
         "distinct_nontrivial": sum(1 for v in sigs.values() if v),
         "rule": "case = (model, solver interface); models: hand-made corner models + bcc.gen.random_model with the full BOUNDS list "
-                "(fixed, forced, one-sided, infinite), 1-2 objective reactions, max and min; each case runs checks a-h of the module "
+                "(fixed, forced, one-sided, infinite), 1-2 objective reactions, max and min + a family with one-sided infinite FORCED "
+                "bounds (-inf,-5) (-inf,-1) (2,inf) (5,inf) mixed with the usual ones (random networks and chains with forced uptake and "
+                "a capacity below / above it), bounds set through the constructor, .bounds or .lower_bound/.upper_bound; each case runs checks a-h of the module "
                 "docstring (slim_optimize x3, optimize x7, certificate, reduced costs, accessors, snapshot). distinct = distinct "
                 "(columns with bounds/objective/stoichiometry, direction, interface); non-trivial = exact verdict infeasible or "
                 "unbounded, or the exact optimum is attained at a non-zero flux vector",
         "bounds": {"tier": tier, "seed": seed, "solvers": solvers, "random_models": cfg["chunks"] * cfg["per_chunk"],
+                   "forced_infinite_bound_models": cfg["forcedinf_chunks"] * cfg["forcedinf_per_chunk"],
+                   "forced_infinite_bounds": [list(map(str, b)) for b in U.FORCED_INF], "bound_setting_paths": list(U.HOWS),
                    "max_metabolites_x_internal_reactions": cfg["sizes"], "corner_models": len(list(corner_models())),
                    "shipped_models": ["textbook"] if cfg["shipped"] else [], "exact_verdicts": verdicts,
                    "oracle_unknown_skipped": unknown, "wall_seconds": round(time.time() - t0, 1)},
@@ -435,7 +445,7 @@ def replay(payload_replay):
         from cobra.io import load_model
         m = load_model(md["shipped"])
     else:
-        m = U.rebuild(md)
+        m = U.build_via(md, payload_replay["how"]) if payload_replay.get("how") else U.rebuild(md)
     fails, _ = check_model(m, payload_replay.get("solver"))
     key = payload_replay.get("key")
     hits = [t for k, t in fails if key is None or k == key]
